@@ -163,6 +163,12 @@ def run(ctx) -> None:
     ctx.rule("C16.R8-stateless-computation", "_compute_memoization_info, its helpers and _memoization_info_to_hash keep no state on the "
                                              "component between computations (a failed attempt is retried later; anything remembered from "
                                              "it - e.g. file digests - would make the hash depend on history, not on the current contents)")
+    ctx.rule("C16.R10-both-spellings-replaced", "in the substitution loop of _compute_memoization_info the test for the relative spelling of a "
+             "reference is not skipped when the absolute spelling occurs as well (no if/elif between the two): a reference the "
+             "arguments spell both ways is replaced by its content hash in both places, otherwise the producer's name stays in the hash")
+    ctx.rule("C16.R11-serialisation-is-injective", "_memoization_info_to_hash separates the keys and values it concatenates (a delimiter, a length "
+             "prefix, or a structured dump): without one, different (executable, arguments) pairs serialise to the same text")
+    ctx.rule("C16.R12-no-hash-stays-no-hash", "the public hash properties post-process a computed hash (prefix, join, format) only when it is not None")
     ctx.rule("C16.R9-own-executable", "the executable that is hashed is the component's own, after variable substitution: the configuration "
              "is fetched with raw=False, for the component's own name - shortened only by the replica index of the component and only "
              "when that name is not itself a component of the unreplicated description (never by stripping characters off the name)")
@@ -409,6 +415,72 @@ def run(ctx) -> None:
                 "every reference is replaced as a whole, so the processing order is immaterial") if ok else
                "references are substituted in an order that is not longest-first and not as whole references: the relative spelling "
                "can be replaced inside an absolute one", construct=short(s.call, 80) + " <- order-independent")
+
+    # ---------------- R10: both spellings of one reference ---------------------------------------------
+    def member_test(t: ast.AST, attr: str) -> Optional[str]:
+        cp = match.compare_parts(t)
+        if cp and isinstance(cp[1], (ast.In, ast.NotIn)) and isinstance(cp[0], ast.Attribute) and cp[0].attr == attr:
+            return "T" if isinstance(cp[1], ast.In) else "F"
+        return None
+    abs_tests = match.test_nodes(cfg, lambda t: member_test(t, "absoluteReference"))
+    # only the pairs of tests against one container: the map of spellings found in the arguments
+    rel_tests = match.test_nodes(cfg, lambda t: member_test(t, "relativeReference"))
+    abs_containers = {source.src(match.compare_parts(t.ast)[2]) for (t, _) in abs_tests}
+    rel_tests = [(t, lab) for (t, lab) in rel_tests if source.src(match.compare_parts(t.ast)[2]) in abs_containers]
+    ctx.floor("C16.R10-both-spellings-replaced", len(rel_tests), 1, "tests for the relative spelling of a reference in the arguments")
+    for (rt, _) in rel_tests:
+        cont = source.src(match.compare_parts(rt.ast)[2])
+        mine = [(t, lab) for (t, lab) in abs_tests if source.src(match.compare_parts(t.ast)[2]) == cont]
+        reach_ok = bool(mine) and all(rt.id in cfg.reach([m for (m, l2) in t.succ if l2 == lab], ignore_labels=("iter", "done", "continue")) for (t, lab) in mine)
+        ctx.ob("C16.R10-both-spellings-replaced", rt.ast, reach_ok,
+               "the relative spelling is looked for also when the absolute spelling was found" if reach_ok else
+               "the relative spelling of a reference is looked for only when the absolute one does not occur (if/elif): in "
+               "'stage0.P/out.txt:ref P/out.txt:ref' the second occurrence is hashed verbatim, so the strong hash changes when only the "
+               "producer is renamed", construct="relative spelling test reachable after the absolute one matched")
+
+    # ---------------- R11: separators -------------------------------------------------------------------
+    accs = [n for n in source.walk_own(info_to_hash) if isinstance(n, ast.AugAssign) and isinstance(n.op, ast.Add) and isinstance(n.target, ast.Name)]
+    dumps = [c for c in source.calls_in(info_to_hash) if (call_name(c) or "").endswith(("json.dumps", "repr", "pickle.dumps"))]
+    ctx.floor("C16.R11-serialisation-is-injective", len(accs) + len(dumps), 1, "accumulations into the hashed text")
+    for a in accs:
+        v = a.value
+        delimited = any(isinstance(x, ast.Constant) and isinstance(x.value, str) and x.value != "" for x in ast.walk(v)) or \
+            any(isinstance(x, ast.Call) and call_name(x) in ("len", "repr", "json.dumps") for x in ast.walk(v))
+        ctx.ob("C16.R11-serialisation-is-injective", a, delimited,
+               "every piece is appended with a delimiter / length / quoting" if delimited else
+               "_memoization_info_to_hash appends %s with nothing between the pieces: {executable: 'yexecutableexecutable', arguments: 'x'} "
+               "and {executable: 'executable', arguments: 'xexecutabley'} both serialise to '...argumentsxexecutableyexecutableexecutable...' "
+               "and receive the same strong hash although executable and arguments differ" % short(v, 30),
+               construct="_memoization_info_to_hash: %s %s= %s <- delimiter" % (a.target.id, "+", short(v, 30)))
+
+    # ---------------- R12: None stays None ----------------------------------------------------------------
+    n12 = 0
+    for q in ("ComponentSpecification.memoization_hash", "ComponentSpecification.memoization_hash_fuzzy"):
+        pf = g.func(q)
+        ctx.analysed(pf)
+        pc = CFG(pf)
+        field = None
+        for r_ in source.walk_own(pf):
+            if isinstance(r_, ast.Return) and isinstance(r_.value, ast.Attribute):
+                field = source.src(r_.value)
+        if field is None:
+            continue
+        for nd in pc.nodes:
+            if nd.kind == "stmt" and isinstance(nd.ast, ast.Assign) and any(source.src(t) == field for t in nd.ast.targets) \
+                    and any(source.src(x) == field for x in ast.walk(nd.ast.value)):
+                n12 += 1
+                tests = match.test_nodes(pc, lambda t, field=field: (
+                    ("F" if isinstance(match.compare_parts(t)[1], (ast.Is, ast.Eq)) else "T")
+                    if (match.compare_parts(t) and source.src(match.compare_parts(t)[0]) == field
+                        and isinstance(match.compare_parts(t)[2], ast.Constant) and match.compare_parts(t)[2].value is None) else None))
+                ok = bool(tests) and match.only_via_edges(pc, nd, tests)
+                ctx.ob("C16.R12-no-hash-stays-no-hash", nd.ast, ok,
+                       "%s post-processes the hash only when it is not None" % q.split(".")[-1] if ok else
+                       "%s post-processes %s (%s) without testing it for None: while an input is missing the hash is None and the "
+                       "expression raises TypeError out of the property (or renders the text 'None' into a hash) instead of 'no hash'" % (
+                           q.split(".")[-1], field, short(nd.ast.value, 50)),
+                       construct="%s: %s <- is not None" % (q.split(".")[-1], short(nd.ast.value, 50)))
+    ctx.floor("C16.R12-no-hash-stays-no-hash", n12, 1, "post-processing assignments in the hash properties")
 
     # ---------------- R6 -------------------------------------------------------------------------------
     iters = [n.iter for n in source.walk_own(info_to_hash) if isinstance(n, ast.For)]
